@@ -300,6 +300,19 @@ def gen_facts(treehash, config):
                         sys.stderr.write(r.stderr[-4000:])
                         raise BuildFailed('expansion of %s failed (%s)' % (label, config), r.stderr)
                     raise RuntimeError('genscan failed on %s' % label)
+                if label.startswith('nodebug-'):
+                    # only the token text is compared (rule G21): drop the syntax trees, they double the cache size
+                    pth = os.path.join(out, label + '.jsonl')
+                    slim = []
+                    with open(pth) as f:
+                        for line in f:
+                            if line.strip():
+                                rec = json.loads(line)
+                                rec['body'] = []
+                                slim.append(json.dumps(rec))
+                    with open(pth, 'w') as f:
+                        f.write('\n'.join(slim) + ('\n' if slim else ''))
+                    os.remove(os.path.join(out, label + '.debug.txt'))
                 index.append(label)
             log('gen', config, '%d targets %.1fs' % (len(jobs), time.time() - t0))
             with open(done, 'w') as f:
